@@ -4,6 +4,7 @@ mod dgen;
 mod front;
 mod graph;
 mod ir;
+mod periodic;
 mod shrink;
 
 fn main() {
@@ -24,6 +25,16 @@ fn main() {
                 }
             }
         }
+        return;
+    }
+    if id == "gen" {
+        // debugging aid: vc-loop gen REPLAY.json [main|defects] -> prints the generated design
+        let v: serde_json::Value = serde_json::from_str(&std::fs::read_to_string(&args[1]).expect("read")).expect("json");
+        let choices: Vec<u32> = v["choices"].as_array().expect("choices").iter().map(|x| x.as_u64().unwrap_or(0) as u32).collect();
+        let defects = args.get(2).map(|s| s == "defects").unwrap_or(false);
+        eprintln!("generating from {} choices", choices.len());
+        let text = c14::gen_text(choices, defects);
+        println!("{text}");
         return;
     }
     vcore::quiet_panics();
